@@ -1,8 +1,9 @@
 import Verif.Base.Bytes
 /-! Environment model of Go `text/template` (with `missingkey=zero`) on a five-construct
 template language: literal text, `{{.field}}`, `{{__line__}}`,
-`{{ unixEpochNanos __timestamp__ }}`, and a construct whose execution fails
-(`{{ unixToTime "x" }}`).  Execution either yields the whole expansion or fails (partial output
+`{{ unixEpochNanos __timestamp__ }}`, a construct whose execution always fails
+(`{{ unixToTime "x" }}`), and one whose failure depends on the record
+(`{{ unixToTime .field | unixEpochNanos }}`).  Execution either yields the whole expansion or fails (partial output
 is discarded by the callers). -/
 namespace Template
 
@@ -12,9 +13,39 @@ inductive Part
   | line
   | ts
   | fail
+  | epoch (name : List Nat)
   deriving DecidableEq, Repr
 
 abbrev Tpl := List Part
+
+/-- `strconv.ParseInt(s, 10, 64)`: optional sign, at least one digit, only digits, in int64 range -/
+def parseInt64 (s : List Nat) : Option Int :=
+  let (neg, ds) := match s with
+    | 45 :: r => (true, r)
+    | 43 :: r => (false, r)
+    | r => (false, r)
+  if ds.isEmpty || !ds.all (fun c => decide (48 ≤ c ∧ c ≤ 57)) then none
+  else
+    let n : Nat := ds.foldl (fun a c => a * 10 + (c - 48)) 0
+    let v : Int := if neg then -(n : Int) else (n : Int)
+    if v < -9223372036854775808 ∨ v > 9223372036854775807 then none else some v
+
+def wrap64 (v : Int) : Int :=
+  let m := v % 18446744073709551616
+  if m ≥ 9223372036854775808 then m - 18446744073709551616 else m
+
+/-- `unixToTime v | unixEpochNanos`: the unit is chosen by the *length of the text* -/
+def epochNanos (v : List Nat) : Option Int :=
+  match parseInt64 v with
+  | none => none
+  | some i =>
+    match v.length with
+    | 5 => some (wrap64 (i * 86400 * 1000000000))
+    | 10 => some (wrap64 (i * 1000000000))
+    | 13 => some (wrap64 (i * 1000000))
+    | 16 => some (wrap64 (i * 1000))
+    | 19 => some i
+    | _ => none
 
 def exec (t : Tpl) (ts : Int) (line : List Nat) (labels : List (List Nat × List Nat)) : Option (List Nat) :=
   t.foldl (fun acc p =>
@@ -26,6 +57,7 @@ def exec (t : Tpl) (ts : Int) (line : List Nat) (labels : List (List Nat × List
       | .field n => some (out ++ (labels.lookup n).getD [])
       | .line => some (out ++ line)
       | .ts => some (out ++ Bytes.intToDec ts)
-      | .fail => none) (some [])
+      | .fail => none
+      | .epoch n => (epochNanos ((labels.lookup n).getD [])).map fun v => out ++ Bytes.intToDec v) (some [])
 
 end Template
